@@ -232,6 +232,8 @@ func (gw *inclusiveGateway) Element() schema.FlowNodeInterface {
 }
 
 type flowTracker struct {
+	tracer     tracing.ITracer
+	sub        chan tracing.ITrace
 	traces     <-chan tracing.ITrace
 	shutdownCh chan bool
 	flows      map[id.Id]schema.Id
@@ -245,8 +247,11 @@ func (tracker *flowTracker) activity() <-chan struct{} {
 }
 
 func newFlowTracker(tracer tracing.ITracer, element *schema.InclusiveGateway) *flowTracker {
+	sub := tracer.Subscribe()
 	tracker := flowTracker{
-		traces:     tracer.Subscribe(),
+		tracer:     tracer,
+		sub:        sub,
+		traces:     sub,
 		shutdownCh: make(chan bool),
 		flows:      make(map[id.Id]schema.Id),
 		activityCh: make(chan struct{}, 1),
@@ -274,7 +279,14 @@ func (tracker *flowTracker) run() {
 	reachedNode := false
 	for {
 		select {
-		case trace := <-tracker.traces:
+		case trace, ok := <-tracker.traces:
+			if !ok {
+				// the tracer has terminated and closed the subscription
+				if locked {
+					tracker.lock.Unlock()
+				}
+				return
+			}
 			locked, notify, reachedNode = tracker.handleTrace(locked, trace, notify, reachedNode)
 			// continue draining
 			continue
@@ -282,6 +294,7 @@ func (tracker *flowTracker) run() {
 			if locked {
 				tracker.lock.Unlock()
 			}
+			tracker.tracer.Unsubscribe(tracker.sub)
 			return
 		default:
 			// Nothing else is coming in, unlock if locked
@@ -301,12 +314,19 @@ func (tracker *flowTracker) run() {
 			// for an event without doing busy work (this `default` clause)
 		}
 		select {
-		case trace := <-tracker.traces:
+		case trace, ok := <-tracker.traces:
+			if !ok {
+				if locked {
+					tracker.lock.Unlock()
+				}
+				return
+			}
 			locked, notify, reachedNode = tracker.handleTrace(locked, trace, notify, reachedNode)
 		case <-tracker.shutdownCh:
 			if locked {
 				tracker.lock.Unlock()
 			}
+			tracker.tracer.Unsubscribe(tracker.sub)
 			return
 		}
 
